@@ -1,14 +1,10 @@
 (** C10 obligation (PyDecimal): decimal.Decimal(format(d, "f")) == d -- sign, coefficient and exponent -- for EVERY finite d with exponent <= 0
     that libmpdec can represent, any number of digits; and quantize never leaves the 28-digit / quantum-exponent domain on which it is the identity. *)
-From OfxV Require Import Base.Prelude Base.Digits Gen.ScalarsGen Model.PyDecimal Model.Scalars Model.ScalarsLex Proofs.ScalarsText Proofs.PyDecimalProofs Proofs.ScalarsProofs Proofs.ScalarsLexProofs.
+From OfxV Require Import Base.Prelude Base.Digits Gen.ScalarsGen Model.PyDecimal Model.Scalars Model.ScalarsLex Proofs.ScalarsText Proofs.PyDecimalProofs Proofs.ScalarsProofs Proofs.ScalarsLexProofs Proofs.ScalarsThms.
 Local Open Scope N_scope.
 Theorem decimal_plain_roundtrip : forall neg c e,
   (e <= 0)%Z -> representable c e = true ->
   of_string (to_plain_fin neg c e) = OK (Fin neg c e) /\ of_string_comma (to_plain_fin neg c e) = OK (Fin neg c e)
   /\ (forall e0 q d, quantize neg c e0 q = OK d -> exists c', d = Fin neg c' q /\ dec_wf d = true /\ quantize neg c' q q = OK d).
-Proof.
-  intros neg c e He Hr. split; [exact (decimal_plain_roundtrip_l neg c e He Hr)|]. split; [exact (decimal_plain_roundtrip_comma neg c e He Hr)|].
-  intros e0 q d H. destruct (quantize_result _ _ _ _ _ H) as (c' & -> & Hq & Hc). exists c'. split; [reflexivity|].
-  split; [exact (fits_representable c' q Hq Hc)|exact (quantize_fixed neg c' q Hq Hc)].
-Qed.
+Proof. exact decimal_plain_roundtrip_l. Qed.
 Print Assumptions decimal_plain_roundtrip.
